@@ -115,6 +115,17 @@ Theorem c02_exact_on_select_where_in : forall noise e s,
 Proof. exact lemma_B_wherein1c_colshape. Qed.
 Print Assumptions c02_exact_on_select_where_in.
 
+(** ... and without the restriction on the sub-query's references (unresolved columns in both scopes), on the purely
+    syntactic shape [wherein1_syntactic] (INSERT without column list / CTAS / VIEW): the unconditional instance of
+    [lemma_B_statement] for one level of WHERE .. IN (Tree/LemmaB5a4.v) *)
+From SV Require Import Tree.LemmaB5a4.
+Theorem c02_exact_on_select_where_in_any_references : forall noise e s,
+  noise_ok noise = true -> env_ok e = true -> stmt_ok s = true -> sshape s = true -> colshape s = true ->
+  wherein1_syntactic s = true ->
+  script_pairs e false [] [r_stmt noise s] = spec_pairs (e_cfg e) s.
+Proof. exact lemma_B_wherein1u_colshape. Qed.
+Print Assumptions c02_exact_on_select_where_in_any_references.
+
 (** * Lemma B, step 5c (partial): a derived table (Tree/LemmaB5cPaths.v, Tree/LemmaB5c.v, 1 900 lines).
     Part P is generalised from bipartite flows to any ranked (layered, acyclic) flow set: the reported pairs are the ends of
     the maximal chains; a chain that ends in a sub-query column (a column of the derived table that the outer query does not
@@ -153,3 +164,16 @@ Theorem c02_exact_on_union_partial : forall noise e s,
   script_pairs e false [] [r_stmt noise s] = spec_pairs (e_cfg e) s.
 Proof. exact lemma_B_union_partial. Qed.
 Print Assumptions c02_exact_on_union_partial.
+
+(** ... step 5c continued (Tree/LemmaB5c2.v): FROM lists of ANY number of relations, each a base table or a depth-1 derived
+    table (SELECT plain columns FROM base tables), comma joins or explicit JOINs, any trivia; induction over the sub-query
+    list with an invariant on the statement holder.  Executable guard [derived_flat_shape] (contains [sq_raw_distinct];
+    each base table occurs once; outer items qualified; no unresolved inner columns; inner JOIN clauses do not leak into an
+    outer explicit JOIN; no INSERT column list) - stronger than [colshape], see the file's open list. *)
+From SV Require Import Tree.LemmaB5c2.
+
+Theorem c02_exact_on_flat_derived_tables_partial : forall noise e s,
+  noise_ok noise = true -> env_ok e = true -> derived_flat_shape noise s = true ->
+  script_pairs e false [] [r_stmt noise s] = spec_pairs (e_cfg e) s.
+Proof. exact lemma_B_derived_flat_restricted. Qed.
+Print Assumptions c02_exact_on_flat_derived_tables_partial.
